@@ -102,17 +102,26 @@ def build():
     return rc == 0, out, changed
 
 
+def prop_modules(prop):
+    """Props/<prop>.lean and Props/<prop><Suffix>.lean (e.g. C03Walk.lean): module names"""
+    d = os.path.join(LEAN, 'BufrModel', 'Props')
+    out = []
+    for f in sorted(os.listdir(d)):
+        if re.match(r'%s[A-Za-z]*\.lean$' % prop, f):
+            out.append('BufrModel.Props.' + f[:-5])
+    return out
+
+
 def theorems_of(prop):
-    """Names of the theorems in Props/<prop>.lean (the proof obligations of the property)."""
-    path = os.path.join(LEAN, 'BufrModel', 'Props', prop + '.lean')
-    if not os.path.exists(path):
-        return []
+    """Names of the theorems in Props/<prop>*.lean (the proof obligations of the property)."""
     names = []
-    with open(path) as f:
-        for line in f:
-            m = re.match(r'\s*theorem\s+([A-Za-z0-9_\.]+)', line)
-            if m:
-                names.append(m.group(1))
+    for mod in prop_modules(prop):
+        path = os.path.join(LEAN, *mod.split('.')) + '.lean'
+        with open(path) as f:
+            for line in strip_comments(f.read()).split('\n'):
+                m = re.match(r'\s*theorem\s+([A-Za-z0-9_\.]+)', line)
+                if m and m.group(1).startswith(prop):
+                    names.append(m.group(1))
     return names
 
 
@@ -148,7 +157,7 @@ def strip_comments(text):
 def import_closure(prop):
     """Lean source files in the import closure of Props/<prop>.lean (project files only)."""
     seen = {}
-    todo = ['BufrModel.Props.' + prop]
+    todo = list(prop_modules(prop))
     while todo:
         m = todo.pop()
         if m in seen:
@@ -191,9 +200,9 @@ def audit(prop):
         text = open(cache).read()
     else:
         names = theorems_of(prop)
-        ptxt = open(os.path.join(LEAN, 'BufrModel', 'Props', prop + '.lean')).read()
+        ptxt = ''.join(open(os.path.join(LEAN, *m.split('.')) + '.lean').read() for m in prop_modules(prop))
         spaces = sorted(set(re.findall(r'^namespace\s+(\S+)', ptxt, re.M)) | {'Bufr'})
-        src = 'import BufrModel.Props.%s\n' % prop + ''.join('open %s\n' % ns for ns in spaces) + ''.join('#print axioms %s\n' % n for n in names)
+        src = ''.join('import %s\n' % m for m in prop_modules(prop)) + ''.join('open %s\n' % ns for ns in spaces) + ''.join('#print axioms %s\n' % n for n in names)
         apath = os.path.join(cdir, 'Audit_%s.lean' % prop)
         with open(apath, 'w') as f:
             f.write(src)
